@@ -147,6 +147,33 @@ class _Ext(object):
         object.__getattribute__(self, "__dict__")[field] = value
 
 
+def held_ids(v, depth=0, seen=None):
+    """Source sites of a sink operand: of the value itself, or of the values it holds (fields of a project-class instance,
+    elements of a list / tuple / dict), to any depth - lian's sink check walks the states contained in the operand."""
+    if isinstance(v, Taint):
+        return v.ids
+    if depth > 6:
+        return frozenset()
+    seen = seen if seen is not None else set()
+    if id(v) in seen:
+        return frozenset()
+    inner = None
+    if isinstance(v, dict):
+        inner = list(v.values())
+    elif isinstance(v, (list, tuple)):
+        inner = list(v)
+    elif type(v).__module__ not in ("builtins", __name__) and hasattr(v, "__dict__") and not isinstance(v, type) \
+            and not callable(v):
+        inner = list(vars(v).values())
+    if not inner:
+        return frozenset()
+    seen.add(id(v))
+    out = frozenset()
+    for x in inner:
+        out = out | held_ids(x, depth + 1, seen)
+    return out
+
+
 class Runtime(object):
     """Executes a project under CPython with sources / sinks instrumented from the rule set."""
 
@@ -237,8 +264,9 @@ class Runtime(object):
                     v = receiver
                 elif t == "target":
                     v = value if value is not None else receiver
-                if isinstance(v, Taint) and v.ids:
-                    self.hits.append((site[0], site[1], t, v.ids))
+                ids = held_ids(v)
+                if ids:
+                    self.hits.append((site[0], site[1], t, ids))
 
     def make_receiver_sink(self, taint, field):
         rt = self
@@ -426,6 +454,9 @@ INLINE_LINKS = ["assign", "binop_r", "binop_l", "binop_mul", "augassign", "field
                 "static_field", "list_lit", "list_store", "list_append", "dict_lit", "dict_store", "dict_get",
                 "tuple_unpack", "tuple_assign", "if_then", "if_else", "ifexp", "for_body", "for_iter", "while_body",
                 "try_body", "lambda", "call_id", "call_kw", "call_second", "merge_src", "tee"]
+# links after which a nested holder (nest_obj2 / nest_dict2, always last) is generated
+NEST_SAFE_LINKS = ["assign", "binop_r", "binop_l", "binop_mul", "augassign", "field", "list_lit", "list_store", "dict_lit",
+                   "dict_store", "tuple_unpack", "tuple_assign", "ifexp", "if_then", "if_else"]
 BLOCK_LINKS = ["in_if", "in_else", "in_for", "in_while", "in_try"]
 DESCEND_LINKS = ["param", "param_kw", "closure", "method_param"]
 ASCEND_LINKS = ["return", "global_write", "nonlocal", "out_field", "global_import"]
@@ -842,6 +873,15 @@ class Builder(object):
             E("%s = %s()" % (o, cls.name))
             E("%s.%s = %s" % (o, self.fld(), v))
             E("%s = %s.%s" % (w, o, self.fld()))
+        elif k == "nest_obj2":
+            # the sink operand HOLDS the value two levels down (stored through an intermediate sub-object)
+            cls = self.new_class(cur.file, "Bx")
+            E("%s = %s()" % (w, cls.name))
+            E("%s.a%d = %s()" % (w, self.c, cls.name))
+            E("%s.a%d.%s = %s" % (w, self.c, self.fld(), v))
+        elif k == "nest_dict2":
+            E('%s = {"k": {}}' % w)
+            E('%s["k"]["z"] = %s' % (w, v))
         elif k == "ctor_field":
             tf = self.pick_file(cur.file, link)
             cls = self.new_class(tf, "Ct")
@@ -1336,6 +1376,14 @@ def spec_strategy(profile=None):
         ch["links"] = links
         ch["end"] = draw(st.sampled_from(endings)) if draw(st.integers(0, 9)) < neg else "sink"
         ch["snk"] = draw(sink_st())
+        if ch["end"] == "sink" and ch["snk"]["kind"] in ("call", "method") and ch["snk"].get("pos", "").startswith("arg") \
+                and profile.get("nest", True) and draw(st.integers(0, 5)) == 0 \
+                and not ch.get("pre") and ch["src"] != "param" and not ch.get("start_mod") and not ch.get("wrap2") \
+                and all(l["k"] in NEST_SAFE_LINKS for l in links):
+            # (module-level chains of plain links only: inside a function the shape is the open finding
+            #  C10-nested-holder-inside-function, kept as a replay)
+            # last link: the sink argument is an object / dict that holds the value two levels down
+            links.append({"k": draw(st.sampled_from(["nest_obj2", "nest_dict2"]))})
         return ch
 
     @st.composite
